@@ -158,7 +158,44 @@ func scribble(v any) {
 	}
 	rv := reflect.ValueOf(v)
 	if rv.Kind() == reflect.Ptr && !rv.IsNil() {
-		rv.Elem().Set(reflect.Zero(rv.Elem().Type()))
+		pollute(rv.Elem())
+	}
+}
+
+// pollute fills a value with junk (not zeroes: a decoder that is handed a re-used object leaves absent fields alone, so
+// zeroes would hide the re-use, junk shows it).
+func pollute(v reflect.Value) {
+	if !v.CanSet() {
+		return
+	}
+	switch v.Kind() {
+	case reflect.String:
+		v.SetString("scribbled-by-an-earlier-handler")
+	case reflect.Int, reflect.Int8, reflect.Int16, reflect.Int32, reflect.Int64:
+		v.SetInt(77)
+	case reflect.Uint, reflect.Uint8, reflect.Uint16, reflect.Uint32, reflect.Uint64:
+		v.SetUint(77)
+	case reflect.Float32, reflect.Float64:
+		v.SetFloat(7.75)
+	case reflect.Bool:
+		v.SetBool(!v.Bool())
+	case reflect.Struct:
+		for i := 0; i < v.NumField(); i++ {
+			pollute(v.Field(i))
+		}
+	case reflect.Slice:
+		e := reflect.New(v.Type().Elem()).Elem()
+		pollute(e)
+		v.Set(reflect.Append(v, e))
+	case reflect.Map:
+		if v.IsNil() {
+			v.Set(reflect.MakeMap(v.Type()))
+		}
+		k := reflect.New(v.Type().Key()).Elem()
+		e := reflect.New(v.Type().Elem()).Elem()
+		pollute(k)
+		pollute(e)
+		v.SetMapIndex(k, e)
 	}
 }
 
